@@ -420,7 +420,11 @@ func famAuthority(g *sgen, i int) J {
 		store := jmap(w["store"])
 		// mostly the genuine stored Follow (so that verified Accepts — and faults after the verification — are common)
 		sc := g.r.intn(12)
-		if sc >= 6 {
+		repeated := false
+		if sc == 6 {
+			sc = 5 // the repeated-object Follow twice as often
+		}
+		if sc > 6 {
 			sc = 6
 		}
 		switch sc {
@@ -440,6 +444,7 @@ func famAuthority(g *sgen, i int) J {
 		case 5:
 			// the stored Follow names one object twice (by IRI and embedded): it still covers only that one actor
 			store[local("/activities/f1")] = J{"type": "Follow", "id": local("/activities/f1"), "actor": alice, "object": []interface{}{bob, J{"type": "Person", "id": bob}}}
+			repeated = true
 		}
 		var objs []interface{}
 		for k, n := 0, 1+g.r.intn(2); k < n; k++ {
@@ -455,6 +460,15 @@ func famAuthority(g *sgen, i int) J {
 			}
 		}
 		a["object"] = asList(objs)
+		if repeated {
+			// … accepted by the followed actor alone, or together with somebody who was never followed
+			a["object"] = J{"type": "Follow", "id": local("/activities/f1"), "actor": alice, "object": bob}
+			if g.r.bool() {
+				a["actor"] = bob
+			} else {
+				a["actor"] = []interface{}{bob, remote("/users/bea")}
+			}
+		}
 	case 2: // Undo with actor sets
 		a = J{"type": "Undo", "id": remote(fmt.Sprintf("/activities/%d", g.r.intn(100)))}
 		rem := jmap(w["remote"])
